@@ -568,8 +568,10 @@ pub fn format(s: &str) -> FmtRes {
                             Some(0) | None => return FmtRes::Bad,
                             Some(e) => {
                                 let name = &r[..e];
+                                // as documented in the subject's format grammar: NAME is a run of
+                                // ASCII letters; anything else is not a directive
                                 if !name.chars().all(|c| c.is_ascii_alphabetic()) {
-                                    return FmtRes::Unspec("%{xattr:NAME} with a non-alphabetic NAME");
+                                    return FmtRes::Bad;
                                 }
                                 flush(&mut lit, &mut out);
                                 out.push(Fmt::Field(Field::XAttr(name.to_string())));
